@@ -10,6 +10,263 @@ from ..snippet import alpha_equal, contains_stmts, contains_expr
 
 
 # ------------------------------------------------------------------------------------------------ header
+class _AttrOfMissing(Exception):
+    pass
+
+
+def _hd_decision_table(rep, p, mod, fd, lp):
+    """the names one column info contributes, decided by model checking: the per-column code (inline in the loop or in a helper
+    the loop calls) is summarised as paths (conditions -> contribution) and evaluated for each of the 257 abstract column infos
+    (missing / star / table None,a,b,other / name / alias / index / index within input header / within join header); the
+    contribution must be the one the naming rules prescribe.  Layout (if/elif chain, early returns, helper) does not matter."""
+    import itertools
+    from .. import pathsem
+    qv = lp.target.id if isinstance(lp.target, ast.Name) else None
+    in_h, jn_h = fd.args.args[0].arg, fd.args.args[1].arg
+    rets = [r for r in walk_no_nested(fd) if isinstance(r, ast.Return) and isinstance(r.value, ast.Name)]
+    if qv is None or not rets:
+        rep.undecided('naming rules', lp, 'naming loop not recognised')
+        return
+    out = rets[-1].value.id
+
+    def norm(e):
+        return node_text(e, 300).replace(' ', '').replace('"', "'")
+
+    def contribution_of_value(v):
+        # value added to the header: list display, header list, or concatenation of header lists
+        if isinstance(v, ast.List):
+            if not v.elts:
+                return ('many', ())
+            if len(v.elts) == 1:
+                return ('one', norm(v.elts[0]))
+            return None
+        parts = []
+
+        def flat(x):
+            if isinstance(x, ast.BinOp) and isinstance(x.op, ast.Add):
+                flat(x.left)
+                flat(x.right)
+            elif isinstance(x, ast.Call) and isinstance(x.func, ast.Attribute) and x.func.attr == 'concat' and len(x.args) == 1:
+                flat(x.func.value)
+                flat(x.args[0])
+            else:
+                parts.append(x)
+        flat(v)
+        names = []
+        for x in parts:
+            if isinstance(x, ast.Name) and x.id in (in_h, jn_h):
+                names.append('input' if x.id == in_h else 'join')
+            elif isinstance(x, ast.List) and len(x.elts) == 1 and len(parts) == 1:
+                return ('one', norm(x.elts[0]))
+            elif isinstance(x, ast.List) and not x.elts:
+                continue
+            else:
+                return None
+        return ('many', tuple(names))
+    summaries = []    # (atoms, contribution)
+    body = lp.body
+    helper_call = None
+    if len(body) == 1:
+        st = body[0]
+        v = None
+        if isinstance(st, ast.AugAssign) and is_name(st.target, out):
+            v = st.value
+        elif isinstance(st, ast.Expr) and isinstance(st.value, ast.Call) and isinstance(st.value.func, ast.Attribute) and st.value.func.attr == 'extend' and is_name(st.value.func.value, out):
+            v = st.value.args[0]
+        elif isinstance(st, ast.Assign) and is_name(st.targets[0], out) and isinstance(st.value, ast.Call) and isinstance(st.value.func, ast.Attribute) and st.value.func.attr == 'concat' and is_name(st.value.func.value, out):
+            v = st.value.args[0]
+        elif isinstance(st, ast.Expr) and isinstance(st.value, ast.Call) and isinstance(st.value.func, ast.Attribute) and st.value.func.attr in ('append', 'push') and is_name(st.value.func.value, out) and isinstance(st.value.args[0], ast.Call):
+            v = ast.List(elts=[st.value.args[0]], ctx=ast.Load())
+        if isinstance(v, ast.Call) and isinstance(v.func, ast.Name) and p.func(mod, v.func.id, required=False) is not None:
+            helper_call = v
+        elif isinstance(v, ast.List) and len(v.elts) == 1 and isinstance(v.elts[0], ast.Call) and isinstance(v.elts[0].func, ast.Name) and p.func(mod, v.elts[0].func.id, required=False) is not None:
+            helper_call = v.elts[0]
+            helper_call._wrap_one = True
+    if helper_call is not None:
+        g = p.func(mod, helper_call.func.id)
+        env = {a.arg: arg for a, arg in zip(g.args.args, helper_call.args)}
+        ps = pathsem.paths_with_env(g, env)
+        if ps is None:
+            rep.undecided('naming rules', g, 'helper {} is not loop-free straight-line code'.format(g.name))
+            return
+        for q in ps:
+            if q.kind != 'return':
+                rep.undecided('naming rules', q.node, 'helper {} can raise'.format(g.name))
+                return
+            c = ('one', norm(q.value)) if getattr(helper_call, '_wrap_one', False) else contribution_of_value(q.value)
+            summaries.append((pathsem.atoms(q.conds), c, q.node))
+    else:
+        ps = pathsem.paths_of_block(body)
+        if ps is None:
+            rep.undecided('naming rules', lp, 'the naming loop body is not loop-free straight-line code')
+            return
+        for q in ps:
+            if q.kind != 'fall':
+                rep.undecided('naming rules', q.node, 'the naming loop can leave early')
+                return
+            contribs = []
+            expanded = False
+            for c in q.calls:
+                if isinstance(c, ast.Call) and isinstance(c.func, ast.Attribute) and c.func.attr in ('append', 'push') and is_name(c.func.value, out) and c.args:
+                    a0 = c.args[0]
+                    g = p.func(mod, a0.func.id, required=False) if isinstance(a0, ast.Call) and isinstance(a0.func, ast.Name) else None
+                    if g is not None and len(q.calls) == 1 and out not in q.env:
+                        # the appended value is computed by a helper: its paths continue this one
+                        gps = pathsem.paths_with_env(g, {a.arg: arg for a, arg in zip(g.args.args, a0.args)})
+                        if gps is None or any(x.kind != 'return' for x in gps):
+                            rep.undecided('naming rules', g, 'helper {} is not loop-free straight-line code that always returns'.format(g.name))
+                            return
+                        for x in gps:
+                            summaries.append((pathsem.atoms(q.conds) + pathsem.atoms(x.conds), ('one', norm(x.value)), x.node))
+                        expanded = True
+                        continue
+                    contribs.append(('one', norm(a0)))
+                elif isinstance(c, ast.Call) and isinstance(c.func, ast.Attribute) and c.func.attr == 'extend' and is_name(c.func.value, out) and c.args:
+                    contribs.append(contribution_of_value(c.args[0]))
+            if out in q.env:
+                v = q.env[out]
+                # out + X  /  out.concat(X)...: strip the leading accumulator
+                lead = v
+                while isinstance(lead, ast.BinOp) and isinstance(lead.op, ast.Add):
+                    lead = lead.left
+                while isinstance(lead, ast.Call) and isinstance(lead.func, ast.Attribute) and lead.func.attr == 'concat':
+                    lead = lead.func.value
+                if not is_name(lead, out):
+                    contribs.append(None)
+                else:
+                    lead.id = '__acc__'
+                    cv = contribution_of_value(v)
+                    lead.id = out
+                    if cv is None:
+                        # remove the accumulator part
+                        parts = []
+
+                        def flat(x):
+                            if isinstance(x, ast.BinOp) and isinstance(x.op, ast.Add):
+                                flat(x.left)
+                                flat(x.right)
+                            elif isinstance(x, ast.Call) and isinstance(x.func, ast.Attribute) and x.func.attr == 'concat' and len(x.args) == 1:
+                                flat(x.func.value)
+                                flat(x.args[0])
+                            else:
+                                parts.append(x)
+                        flat(v)
+                        rest = [x for x in parts if not is_name(x, out)]
+                        names = []
+                        okp = True
+                        for x in rest:
+                            if isinstance(x, ast.Name) and x.id in (in_h, jn_h):
+                                names.append('input' if x.id == in_h else 'join')
+                            elif isinstance(x, ast.List) and len(x.elts) == 1 and len(rest) == 1:
+                                contribs.append(('one', norm(x.elts[0])))
+                                names = None
+                                break
+                            else:
+                                okp = False
+                        if not okp:
+                            contribs.append(None)
+                        elif names is not None:
+                            contribs.append(('many', tuple(names)))
+                    else:
+                        contribs.append(cv)
+            if expanded:
+                continue
+            if any(c is None for c in contribs) or len(contribs) > 1:
+                rep.undecided('naming rules', lp, 'a path through the naming loop adds to the header in a way that was not recognised')
+                return
+            summaries.append((pathsem.atoms(q.conds), contribs[0] if contribs else ('many', ()), lp))
+
+    Q = qv if helper_call is None else None
+
+    def ev(atom, v):
+        if isinstance(atom, ast.BoolOp):
+            # short-circuit: operands after the deciding one are not evaluated
+            for x in atom.values:
+                r = ev(x, v)
+                if r is None:
+                    return None
+                if isinstance(atom.op, ast.And) and not r:
+                    return False
+                if isinstance(atom.op, ast.Or) and r:
+                    return True
+            return isinstance(atom.op, ast.And)
+        if isinstance(atom, ast.UnaryOp) and isinstance(atom.op, ast.Not):
+            r = ev(atom.operand, v)
+            return None if r is None else not r
+        if isinstance(atom, ast.Compare) and len(atom.ops) == 1 and isinstance(atom.ops[0], (ast.IsNot, ast.NotEq)):
+            flip = ast.Is if isinstance(atom.ops[0], ast.IsNot) else ast.Eq
+            r = ev(ast.Compare(left=atom.left, ops=[flip()], comparators=atom.comparators), v)
+            return None if r is None else not r
+        t = norm(atom)
+        q = qname
+        if v['none'] and (q + '.') in t:
+            raise _AttrOfMissing(atom)
+        table = {q + '.table_nameisNone': v['table'] is None, q + ".table_name=='a'": v['table'] == 'a', q + ".table_name=='b'": v['table'] == 'b',
+                 "'a'==" + q + '.table_name': v['table'] == 'a', "'b'==" + q + '.table_name': v['table'] == 'b',
+                 q + 'isNone': v['none'], q + '.is_star': v['star'], q + '.column_nameisNone': not v['cname'], q + '.alias_nameisNone': not v['alias'],
+                 q + '.column_indexisNone': not v['cidx'],
+                 q + '.column_index<len(' + in_h + ')': v['lt_in'], q + '.column_index<len(' + jn_h + ')': v['lt_join'],
+                 'len(' + in_h + ')>' + q + '.column_index': v['lt_in'], 'len(' + jn_h + ')>' + q + '.column_index': v['lt_join'],
+                 q + '.column_index>=len(' + in_h + ')': not v['lt_in'], q + '.column_index>=len(' + jn_h + ')': not v['lt_join']}
+        return table.get(t)
+    qname = norm(helper_call.args[0]) if helper_call is not None and helper_call.args else qv
+    colk = {"'col{}'.format(len(%s)+1)" % out, "'col'+(len(%s)+1)" % out, "'col'+str(len(%s)+1)" % out, "'col%d'%(len({})+1)".format(out), "f'col{len(%s)+1}'" % out}
+
+    def spec(v):
+        if v['none']:
+            return 'default'
+        if v['star']:
+            return {None: ('many', ('input', 'join')), 'a': ('many', ('input',)), 'b': ('many', ('join',))}.get(v['table'], ('many', ()))
+        if v['cname']:
+            return ('one', qname + '.column_name')
+        if v['alias']:
+            return ('one', qname + '.alias_name')
+        if v['cidx']:
+            if v['table'] == 'a' and v['lt_in']:
+                return ('one', '{}[{}.column_index]'.format(in_h, qname))
+            if v['table'] == 'b' and v['lt_join']:
+                return ('one', '{}[{}.column_index]'.format(jn_h, qname))
+        return 'default'
+    vals = [{'none': True, 'star': False, 'table': None, 'cname': False, 'alias': False, 'cidx': False, 'lt_in': False, 'lt_join': False}]
+    for star, table, cname, alias, cidx, lt_in, lt_join in itertools.product((True, False), (None, 'a', 'b', 'x'), (True, False), (True, False), (True, False), (True, False), (True, False)):
+        vals.append({'none': False, 'star': star, 'table': table, 'cname': cname, 'alias': alias, 'cidx': cidx, 'lt_in': lt_in, 'lt_join': lt_join})
+    n_ok = 0
+    for v in vals:
+        taken = None
+        for atoms_, contrib, node in summaries:
+            ok = True
+            for atom, pol in atoms_:
+                try:
+                    r = ev(atom, v)
+                except _AttrOfMissing as e:
+                    rep.violated('naming rules', node, 'an attribute of the column info is read (`{}`) on a path taken when the column info is missing: a select item without column info makes header naming crash'.format(node_text(e.args[0], 60)))
+                    return
+                if r is None:
+                    rep.undecided('naming rules', node, 'condition `{}` is outside the abstract column-info domain'.format(node_text(atom, 80)))
+                    return
+                if r != pol:
+                    ok = False
+                    break
+            if ok:
+                taken = (contrib, node)
+                break
+        if taken is None:
+            rep.undecided('naming rules', lp, 'no path for column info {}'.format(v))
+            return
+        got = taken[0]
+        want = spec(v)
+        if want == 'default':
+            good = got is not None and got[0] == 'one' and got[1] in colk
+        else:
+            good = got == want
+        if not good:
+            desc = 'missing column info' if v['none'] else ', '.join('{}={}'.format(k, v[k]) for k in ('star', 'table', 'cname', 'alias', 'cidx', 'lt_in', 'lt_join'))
+            rep.violated('naming rules', taken[1], 'for a column info with [{}] the header gets {} but the naming rules prescribe {}'.format(desc, got, 'col<position>' if want == 'default' else want))
+            return
+        n_ok += 1
+    rep.holds('naming rules', lp, 'all {} abstract column infos are named as prescribed: missing -> colK; star -> input+join / input / join names; column name; alias; index within its header -> source name; otherwise colK'.format(n_ok))
+
+
 def rule_hd_table(cx, rep, port):
     """select_output_header: decision table total and ordered: None -> colK; star -> header lists; column name; alias;
     index in range -> source name; else colK"""
@@ -20,76 +277,7 @@ def rule_hd_table(cx, rep, port):
     if not loops:
         raise Undecided('select_output_header: naming loop not found', fd)
     lp = loops[-1]
-    chain = []
-    cur = lp.body[0] if lp.body and isinstance(lp.body[0], ast.If) else None
-    if cur is None:
-        raise Undecided('select_output_header: decision chain not found', lp)
-    while cur is not None:
-        chain.append((cur.test, cur.body))
-        if len(cur.orelse) == 1 and isinstance(cur.orelse[0], ast.If):
-            cur = cur.orelse[0]
-        else:
-            if cur.orelse:
-                chain.append((None, cur.orelse))
-            cur = None
-    def kind(test):
-        if test is None:
-            return 'else'
-        t = node_text(test)
-        if t in ('qci is None',):
-            return 'none'
-        if t == 'qci.is_star':
-            return 'star'
-        if t == 'qci.column_name is not None':
-            return 'name'
-        if t == 'qci.alias_name is not None':
-            return 'alias'
-        if t == 'qci.column_index is not None':
-            return 'index'
-        return '?' + t
-    kinds = [kind(t) for t, b in chain]
-    want = ['none', 'star', 'name', 'alias', 'index', 'else']
-    if kinds != want:
-        rep.violated('decision order', lp, 'naming decisions are taken in the order {} (must be {})'.format(kinds, want))
-        return
-    rep.holds('decision order', lp, 'None, star, column name, alias, index, fallback')
-    def appended(body):
-        out = []
-        for s in body:
-            for c in ast.walk(s):
-                if isinstance(c, ast.Call) and isinstance(c.func, ast.Attribute) and c.func.attr in ('append', 'push') and dotted(c.func.value) == 'output_header':
-                    out.append(node_text(c.args[0]))
-        return out
-    colk = lambda s: s.replace(' ', '') in ("'col{}'.format(len(output_header)+1)", "'col'+(len(output_header)+1)")  # noqa: E731
-    b = dict(zip(kinds, [bd for t, bd in chain]))
-    rep.decide(len(appended(b['none'])) == 1 and colk(appended(b['none'])[0]), 'unnamed column', b['none'][0], 'colK with K = position in the output', 'an unnamed column is named `{}` instead of col<position in output>'.format(appended(b['none'])))
-    rep.decide(appended(b['name']) == ['qci.column_name'], 'column name', b['name'][0], 'a.name / a["name"] / bare variable -> that name', 'named-column arm appends {}'.format(appended(b['name'])))
-    rep.decide(appended(b['alias']) == ['qci.alias_name'], 'alias', b['alias'][0], 'expr AS name -> the alias', 'alias arm appends {}'.format(appended(b['alias'])))
-    rep.decide(all(colk(x) for x in appended(b['else'])) and len(appended(b['else'])) == 1, 'fallback', b['else'][0], 'fallback colK', 'fallback arm appends {}'.format(appended(b['else'])))
-    # index arm
-    ib = b['index']
-    ok = False
-    if len(ib) == 1 and isinstance(ib[0], ast.If):
-        i1 = ib[0]
-        t1 = node_text(i1.test)
-        a1 = appended(i1.body)
-        i2 = i1.orelse[0] if len(i1.orelse) == 1 and isinstance(i1.orelse[0], ast.If) else None
-        if i2 is not None:
-            t2 = node_text(i2.test)
-            a2 = appended(i2.body)
-            a3 = appended(i2.orelse)
-            ok = (t1 == "qci.table_name == 'a' and qci.column_index < len(input_header)" and a1 == ['input_header[qci.column_index]'] and t2 == "qci.table_name == 'b' and qci.column_index < len(join_header)" and a2 == ['join_header[qci.column_index]'] and len(a3) == 1 and colk(a3[0]))
-    rep.decide(ok, 'index arm', ib[0], 'aN -> input name N if in range, bN -> join name N if in range, else colK', 'the aN/bN naming arm no longer maps an in-range index to the source column name of its own table (else colK)')
-    # star arm
-    sb = b['star']
-    ok = False
-    if len(sb) == 1 and isinstance(sb[0], ast.If):
-        txt = node_text(sb[0], 1200).replace(' ', '')
-        if port == 'py':
-            ok = ("ifqci.table_nameisNone:output_header+=input_header+join_header" in txt and "elifqci.table_name=='a':output_header+=input_header" in txt and "elifqci.table_name=='b':output_header+=join_header" in txt)
-        else:
-            ok = ("ifqci.table_nameisNone:output_header=output_header.concat(input_header).concat(join_header)" in txt and "elifqci.table_name=='a':output_header=output_header.concat(input_header)" in txt and "elifqci.table_name=='b':output_header=output_header.concat(join_header)" in txt)
-    rep.decide(ok, 'star arm', sb[0], '* -> input names then join names; a.* -> input names; b.* -> join names', 'star expansion of the header no longer appends (input + join) / input / join names for * / a.* / b.*')
+    _hd_decision_table(rep, p, mod, fd, lp)
     # HD-NOHDR
     pre = [n for n in fd.body if isinstance(n, ast.If) and node_text(n.test) == 'input_header is None' and any(isinstance(x, ast.Return) for x in ast.walk(n))]
     okn = False
@@ -226,25 +414,117 @@ def rule_hd_except(cx, rep, port):
     p = cx.port(port)
     mod = cx.engine_mod(port)
     fd = p.func(mod, 'translate_except_expression')
-    srt = [c for c in walk_no_nested(fd) if isinstance(c, ast.Call) and (dotted(c.func) == 'sorted' or (isinstance(c.func, ast.Attribute) and c.func.attr == 'sort'))]
-    rep.decide(len(srt) == 1, 'index order', srt[0] if srt else fd, 'skip indices are sorted', 'skip indices are not sorted once')
-    hdr = [n for n in walk_no_nested(fd) if isinstance(n, ast.Assign) and is_name(n.targets[0], 'output_header')]
-    okh = len(hdr) == 1 and isinstance(hdr[0].value, ast.IfExp) and 'input_header is None' in node_text(hdr[0].value.test) and node_text(hdr[0].value.orelse) == 'select_except(input_header, skip_indices)'
-    rep.decide(okh, 'header projection', hdr[0] if hdr else fd, 'header = select_except(input_header, same indices); None without header', 'the EXCEPT header is not computed with select_except(input_header, <the same indices>)')
-    rets = [r for r in walk_no_nested(fd) if isinstance(r, ast.Return)]
-    t = node_text(rets[-1].value, 300) if rets else ''
-    okr = 'select_except(record_a, [' in t
-    rep.decide(okr, 'record projection', rets[-1] if rets else fd, 'records = select_except(record_a, [indices])', 'the EXCEPT record expression is not select_except(record_a, [indices])')
-    idx = [c for c in walk_no_nested(fd) if isinstance(c, ast.Call) and isinstance(c.func, ast.Attribute) and c.func.attr in ('append', 'push') and dotted(c.func.value) == 'skip_indices']
-    oki = len(idx) == 1 and node_text(idx[0].args[0]) in ('var_info.index', 'input_variables_map[var_name].index')
-    rep.decide(oki, 'index source', idx[0] if idx else fd, 'indices come from the variable map', 'EXCEPT indices do not come from the variable map entries')
+    from .pa import marker_template
+    hdr_param = fd.args.args[3].arg
+    map_param = fd.args.args[1].arg
+    # the index list: receiver of the append of a variable-map entry's index
+    idx = [c for c in walk_no_nested(fd) if isinstance(c, ast.Call) and isinstance(c.func, ast.Attribute) and c.func.attr in ('append', 'push') and isinstance(c.func.value, ast.Name) and c.args and isinstance(c.args[0], ast.Attribute) and c.args[0].attr == 'index']
+    if len(idx) != 1:
+        rep.undecided('index source', fd, 'collection of the EXCEPT indices not recognised')
+        return
+    L = idx[0].func.value.id
+
+    def flows_from(e, name, seen=None):
+        """does the value of e derive (through definitions of the names it mentions) from the list `name`?"""
+        seen = seen or set()
+        for x in ast.walk(e):
+            if isinstance(x, ast.Name) and isinstance(x.ctx, ast.Load):
+                if x.id == name:
+                    return True
+                if x.id in seen:
+                    continue
+                seen.add(x.id)
+                for d in walk_no_nested(fd):
+                    if isinstance(d, ast.Assign) and any(is_name(t_, x.id) for t_ in d.targets) and flows_from(d.value, name, seen):
+                        return True
+        return False
+    src = idx[0].args[0].value
+    src_ok = (isinstance(src, ast.Name) and any(isinstance(d, ast.Assign) and is_name(d.targets[0], src.id) and map_param in names_in(d.value) for d in walk_no_nested(fd))) or map_param in names_in(src)
+    rep.decide(src_ok, 'index source', idx[0], 'indices come from the variable map', 'EXCEPT indices do not come from the variable map entries')
+    srt = [c for c in walk_no_nested(fd) if isinstance(c, ast.Call) and ((dotted(c.func) == 'sorted' and c.args and flows_from(c.args[0], L)) or (isinstance(c.func, ast.Attribute) and c.func.attr == 'sort' and flows_from(c.func.value, L)))]
+    rep.decide(len(srt) >= 1, 'index order', srt[0] if srt else fd, 'skip indices are sorted', 'skip indices are not sorted')
+    proj = [c for c in walk_no_nested(fd) if isinstance(c, ast.Call) and dotted(c.func) == 'select_except' and c.args and is_name(c.args[0], hdr_param)]
+    rets = [r for r in walk_no_nested(fd) if isinstance(r, ast.Return) and isinstance(r.value, (ast.Tuple, ast.List)) and len(r.value.elts) == 2]
+    if len(rets) != 1:
+        rep.undecided('header projection', fd, 'returned (header, expression) pair not recognised')
+        return
+    h_el, e_el = rets[0].value.elts
+    if len(proj) == 1 and len(proj[0].args) == 2:
+        same = is_name(proj[0].args[1], L)
+        reaches = any(x is proj[0] for x in ast.walk(h_el)) or any(isinstance(d, ast.Assign) and any(x is proj[0] for x in ast.walk(d.value)) and any(t_.id in names_in(h_el) for t_ in d.targets if isinstance(t_, ast.Name)) for d in walk_no_nested(fd))
+        if not same:
+            rep.violated('header projection', proj[0], 'the EXCEPT header is projected with `{}`, not with the index list used for the records'.format(node_text(proj[0].args[1])))
+        elif not reaches:
+            rep.violated('header projection', rets[0], 'the projected header is not what translate_except_expression returns')
+        else:
+            rep.holds('header projection', proj[0], 'header = select_except(input_header, the same indices); None without header')
+    elif not proj and hdr_param in names_in(h_el):
+        rep.violated('header projection', rets[0], 'the EXCEPT header handed back is the input header itself: the excluded columns keep their names')
+    else:
+        rep.undecided('header projection', fd, 'projection of the header not recognised')
+    tmpl = None
+    for x in ast.walk(e_el):
+        m = marker_template(x) if isinstance(x, (ast.Call, ast.JoinedStr, ast.BinOp)) else None
+        if m is not None:
+            tmpl = m
+            break
+    if tmpl is None:
+        rep.undecided('record projection', rets[0], 'record expression template not recognised')
+    else:
+        pre, suf, hole = tmpl
+        okr = pre.replace(' ', '') == 'select_except(record_a,[' and suf.replace(' ', '') == '])' and flows_from(hole, L)
+        rep.decide(okr, 'record projection', rets[0], 'records = select_except(record_a, [the same indices])', 'the EXCEPT record expression is not select_except(record_a, [<the collected indices>])')
     unk = [r for r in walk_no_nested(fd) if isinstance(r, ast.Raise)]
     rep.decide(len(unk) == 1 and 'RbqlParsingError' in node_text(unk[0]), 'unknown field', unk[0] if unk else fd, 'unknown field -> parsing error', 'an unknown EXCEPT field is not a parsing error')
     se = p.func(mod, 'select_except')
-    t = node_text(se, 800).replace(' ', '')
-    oks = ('ifinotinexcept_fields:result.append(v)' in t) if port == 'py' else ('ifexcept_fields.indexOf(i)==-1:result.push(src[i])' in t)
-    fresh = any(isinstance(n, ast.Assign) and is_name(n.targets[0], 'result') and ((isinstance(n.value, ast.Call) and dotted(n.value.func) == 'list') or isinstance(n.value, ast.List)) for n in walk_no_nested(se))
-    rep.decide(oks and fresh, 'select_except', se, 'keeps, in order, the fields whose index is not excluded, in a new list', 'select_except no longer keeps exactly the non-excluded fields in order in a fresh list')
+    _select_except_semantics(rep, se)
+    if port == 'js':
+        # Array.sort() without a comparator orders numbers by their decimal text (10 < 9)
+        bare = [c for c in srt if isinstance(c.func, ast.Attribute) and c.func.attr == 'sort' and not c.args]
+        bare += [c for c in walk_no_nested(fd) if isinstance(c, ast.Call) and isinstance(c.func, ast.Attribute) and c.func.attr == 'sort' and not c.args and flows_from(c.func.value, L) and c not in bare]
+        if bare:
+            rep.violated('index order', bare[0], 'the EXCEPT indices are sorted with Array.sort() without a comparator: numbers are ordered by their decimal text (10 before 9)')
+
+
+def _select_except_semantics(rep, se):
+    """select_except(src, E) keeps, in order and in a new list, exactly the elements whose position is not in E"""
+    src, exc = se.args.args[0].arg, se.args.args[1].arg
+    keep = None   # (test, kept element, index name, value name, node)
+    for n in walk_no_nested(se):
+        if isinstance(n, ast.For):
+            iv = vv = None
+            if isinstance(n.iter, ast.Call) and dotted(n.iter.func) == 'enumerate' and n.iter.args and is_name(n.iter.args[0], src) and isinstance(n.target, ast.Tuple):
+                iv, vv = n.target.elts[0].id, n.target.elts[1].id
+            elif isinstance(n.iter, ast.Call) and dotted(n.iter.func) == 'range' and isinstance(n.iter.args[-1], ast.Call) and dotted(n.iter.args[-1].func) == 'len' and is_name(n.iter.args[-1].args[0], src) and isinstance(n.target, ast.Name):
+                iv = n.target.id
+            if iv is None:
+                continue
+            if len(n.body) == 1 and isinstance(n.body[0], ast.If) and not n.body[0].orelse and len(n.body[0].body) == 1:
+                st = n.body[0].body[0]
+                if isinstance(st, ast.Expr) and isinstance(st.value, ast.Call) and isinstance(st.value.func, ast.Attribute) and st.value.func.attr in ('append', 'push') and st.value.args:
+                    keep = (n.body[0].test, st.value.args[0], iv, vv, n)
+        if isinstance(n, ast.ListComp) and len(n.generators) == 1 and len(n.generators[0].ifs) == 1:
+            g = n.generators[0]
+            if isinstance(g.iter, ast.Call) and dotted(g.iter.func) == 'enumerate' and g.iter.args and is_name(g.iter.args[0], src) and isinstance(g.target, ast.Tuple):
+                keep = (g.ifs[0], n.elt, g.target.elts[0].id, g.target.elts[1].id, n)
+    if keep is None:
+        rep.undecided('select_except', se, 'shape of select_except not recognised')
+        return
+    test, kept, iv, vv, node = keep
+    t = node_text(test, 120).replace(' ', '')
+    good_t = t in ('{}notin{}'.format(iv, exc), '{}.indexOf({})==-1'.format(exc, iv), 'not{}.includes({})'.format(exc, iv), '{}.indexOf({})<0'.format(exc, iv), 'not({}in{})'.format(iv, exc))
+    bad_t = t in ('{}in{}'.format(iv, exc), '{}.indexOf({})!=-1'.format(exc, iv), '{}.includes({})'.format(exc, iv), '{}.indexOf({})>=0'.format(exc, iv))
+    k = node_text(kept, 60).replace(' ', '')
+    good_k = (vv is not None and k == vv) or k == '{}[{}]'.format(src, iv)
+    fresh = any(isinstance(n, ast.Assign) and isinstance(n.targets[0], ast.Name) and ((isinstance(n.value, ast.Call) and dotted(n.value.func) == 'list' and not n.value.args) or (isinstance(n.value, ast.List) and not n.value.elts)) for n in walk_no_nested(se)) or isinstance(node, ast.ListComp)
+    if bad_t:
+        rep.violated('select_except', node, 'select_except keeps the fields whose position *is* listed (`{}`)'.format(node_text(test, 60)))
+    elif good_t and good_k and fresh:
+        rep.holds('select_except', se, 'keeps, in order, the fields whose index is not excluded, in a new list')
+    elif good_t and not good_k and isinstance(kept, ast.Subscript):
+        rep.violated('select_except', node, 'select_except keeps `{}` instead of the field at the tested position'.format(node_text(kept, 60)))
+    else:
+        rep.undecided('select_except', node, 'membership test `{}` / kept element `{}` not recognised'.format(node_text(test, 60), node_text(kept, 40)))
 
 
 def rule_hd_update(cx, rep, port):
@@ -365,21 +645,67 @@ def rule_va_enum(cx, rep, port):
     rep.decide(m_ok, 'direct-mode name check', fm, 'names must be identifiers (anchored)', 'direct-mode identifier check changed: {}'.format(pats.get('map_variables_directly')))
 
 
+def _replacement_sequence(fd, port):
+    """the replacements a function applies, in execution order: [(order key, source, replacement, all occurrences?, node)].
+    Understands statement sequences, chained `.replace().replace()`, and a loop over a constant sequence of (source, replacement)
+    pairs (unrolled)."""
+    out = []
+
+    def one(n, key, env):
+        a0, a1 = n.args
+        if isinstance(a0, ast.Name) and a0.id in env:
+            a0 = env[a0.id]
+        if isinstance(a1, ast.Name) and a1.id in env:
+            a1 = env[a1.id]
+        src = a0.value if isinstance(a0, ast.Constant) else (a0.args[0].value if isinstance(a0, ast.Call) and dotted(a0.func) == '__regex__' else None)
+        glob = True if isinstance(a0, ast.Constant) and port == 'py' else (isinstance(a0, ast.Call) and dotted(a0.func) == '__regex__' and 'g' in a0.args[1].value)
+        dst = a1.value if isinstance(a1, ast.Constant) else None
+        out.append((key, src, dst, glob, n))
+
+    def calls_in(node, key, env):
+        found = [n for n in ast.walk(node) if isinstance(n, ast.Call) and isinstance(n.func, ast.Attribute) and n.func.attr in ('replace', 'replaceAll') and len(n.args) == 2]
+        # inner calls of a chain run first: deeper receiver = earlier
+        def depth(n):
+            d, r = 0, n.func.value
+            while isinstance(r, ast.Call) and isinstance(r.func, ast.Attribute):
+                d, r = d + 1, r.func.value
+            return d
+        for i, n in enumerate(sorted(found, key=depth)):
+            one(n, key + (i,), env)
+
+    def block(stmts, key):
+        for i, st in enumerate(stmts):
+            k = key + (i,)
+            if isinstance(st, ast.For) and isinstance(st.target, (ast.Tuple, ast.List)) and len(st.target.elts) == 2 and all(isinstance(t, ast.Name) for t in st.target.elts):
+                seq = st.iter
+                if isinstance(seq, ast.Name):
+                    defs = [d for d in walk_no_nested(fd) if isinstance(d, ast.Assign) and is_name(d.targets[0], seq.id)]
+                    seq = defs[0].value if len(defs) == 1 else seq
+                if isinstance(seq, (ast.Tuple, ast.List)) and all(isinstance(e, (ast.Tuple, ast.List)) and len(e.elts) == 2 for e in seq.elts):
+                    for j, e in enumerate(seq.elts):
+                        env = {st.target.elts[0].id: e.elts[0], st.target.elts[1].id: e.elts[1]}
+                        for b in st.body:
+                            calls_in(b, k + (j,), env)
+                    continue
+            if isinstance(st, (ast.If, ast.For, ast.While, ast.Try, ast.With)):
+                for fld in ('body', 'orelse', 'finalbody'):
+                    block(getattr(st, fld, []) or [], k + (fld,))
+                if isinstance(st, ast.If):
+                    calls_in(st.test, k + ('!',), {})
+                continue
+            calls_in(st, k, {})
+    block(fd.body, ())
+    out.sort(key=lambda r: tuple(str(x).rjust(6, '0') if isinstance(x, int) else str(x) for x in r[0]))
+    return out
+
+
 def rule_va_esc(cx, rep, port):
     """escape doubles backslashes first, covers quote/LF/CR; quote pair agreement; segment filter disjoint from escaped characters"""
     p = cx.port(port)
     mod = cx.engine_mod(port)
     fname = 'python_string_escape_column_name' if port == 'py' else 'js_string_escape_column_name'
     fd = p.func(mod, fname)
-    reps = []
-    for n in walk_no_nested(fd):
-        if isinstance(n, ast.Call) and isinstance(n.func, ast.Attribute) and n.func.attr == 'replace' and len(n.args) == 2:
-            a0 = n.args[0]
-            src = a0.value if isinstance(a0, ast.Constant) else (a0.args[0].value if isinstance(a0, ast.Call) and dotted(a0.func) == '__regex__' else None)
-            glob = True if isinstance(a0, ast.Constant) and port == 'py' else (isinstance(a0, ast.Call) and 'g' in a0.args[1].value)
-            dst = n.args[1].value if isinstance(n.args[1], ast.Constant) else None
-            reps.append((n.lineno, src, dst, glob, n))
-    reps.sort(key=lambda r: r[0])
+    reps = _replacement_sequence(fd, port)
     if not reps:
         raise Undecided('escape function has no replace calls', fd)
     first = reps[0]
